@@ -95,3 +95,19 @@ p = _ensure("C13", "A failed or aborted fetch never wedges or poisons its cache 
 p["streams"] += [S("sysc", 6000, 80000)]
 p["rule"] += _SYSC_RULE + "; origin answers may break off mid-body (fresh fills and revalidating 200 fills): oracle C13: nobody is served from the cache a strict prefix of an origin body, later requests get complete answers"
 p["trivial_labels"] = list(p.get("trivial_labels", [])) + ["no-origin", "unparsed"]
+
+# C16 / C17: whole-shape pins of the limiter's op switch and of what fills / hits report to it
+for _pid in ("C16", "C17"):
+    if _pid in PROPS:
+        PROPS[_pid]["theorems"] += [
+            T("Pins.limiterOpSwitch", "pin", "runSizeLimiter: the `switch io.op` statement (opAdd / opAccessTime / opFlushStorable) as Model.Limiter mirrors it"),
+            T("Pins.closeFinisherShape", "pin", "GetWriter: the closeFinisher closure (no report on revalidation; name and size as handed in)"),
+            T("Pins.finishAndNotifyShape", "pin", "finishAndNotify reports the writer's current key name and written size"),
+            T("Pins.setAccessTimeShape", "pin", "setAccessTime: the access is booked under the key handed in"),
+        ]
+
+# C15 in histories (stream sysc): whatever path a Range request takes (fill, hit, REVALIDATION of a stale entry), the origin is asked for the whole resource
+p = _ensure("C15", "Range requests on cached resources return exactly the requested bytes")
+p["streams"] += [S("sysc", 6000, 80000)]
+p["rule"] += _SYSC_RULE + "; requests may carry Range: bytes=0-3; oracle C15: no origin contact of a cacheable request carries a Range header (cold fill, revalidating fetch, re-fill after a failed fetch)"
+p["trivial_labels"] = list(p.get("trivial_labels", [])) + ["no-origin", "unparsed"]
